@@ -16,7 +16,7 @@ Set Implicit Arguments.
 
 Inductive mev := EBarrierBefore | EBarrierAfter | EVfsWriteBefore | EVfsWriteAcquired | ESetContentBefore
   | ESetContentAfter | ESetRootAfter | EVfsWriteReleased | EUpdateDiagnostics | ESpawn.
-Inductive wev := EStart | EVfsRead (s : site) | EVfsAcquired | EPublishedLock | EEnd.
+Inductive wev := EStart | EVfsRead (s : site) | EVfsAcquired | EPublishedLock | ESnapshotDrop | EEnd.
 Inductive ev := EvMain (e : mev) | EvWorker (i : nat) (e : wev).
 
 Inductive reason := RNoSuchTask | RThreadFinished | RMismatch | RBlocked.
@@ -53,43 +53,45 @@ Definition wev_matches (e : wev) (a : wact P) : bool :=
   | EVfsRead s, WReqV s' => site_eqb s s'
   | EVfsAcquired, WAcqV => true
   | EPublishedLock, WReqP => true
+  | ESnapshotDrop, WDrop => true
   | EEnd, WEnd => true
   | _, _ => false
   end.
 
 Definition m_unobs (a : mact P) : bool := match a with MQW QRootInner | MVWu => true | _ => false end.
-Definition w_unobs (a : wact P) : bool :=
-  match a with WRelV | WCompute | WAcqP | WRelP | WPub _ | WDrop => true | _ => false end.
+(** [od] = the build has the optional hook task.snapshot_drop (Drop of ServerSnapshot): the drop is then an observed event *)
+Definition w_unobs (od : bool) (a : wact P) : bool :=
+  match a with WRelV | WCompute | WAcqP | WRelP | WPub _ => true | WDrop => negb od | _ => false end.
 
 (** first worker (index >= i) whose next action is unobserved and enabled *)
-Fixpoint settle_worker (pol : policy) (s : st P) (l : list (worker P)) (i : nat) : option (st P) :=
+Fixpoint settle_worker (od : bool) (pol : policy) (s : st P) (l : list (worker P)) (i : nat) : option (st P) :=
   match l with
   | [] => None
   | w :: r =>
     match rem w with
-    | a :: _ => if w_unobs a
-                then match exec pol (LWorker i) s with Some s' => Some s' | None => settle_worker pol s r (S i) end
-                else settle_worker pol s r (S i)
-    | [] => settle_worker pol s r (S i)
+    | a :: _ => if w_unobs od a
+                then match exec pol (LWorker i) s with Some s' => Some s' | None => settle_worker od pol s r (S i) end
+                else settle_worker od pol s r (S i)
+    | [] => settle_worker od pol s r (S i)
     end
   end.
 
-Definition settle1 (pol : policy) (s : st P) : option (st P) :=
+Definition settle1 (od : bool) (pol : policy) (s : st P) : option (st P) :=
   match mpc s with
   | a :: _ => if m_unobs a
-              then match exec pol LMain s with Some s' => Some s' | None => settle_worker pol s (ws s) 0 end
-              else settle_worker pol s (ws s) 0
-  | [] => settle_worker pol s (ws s) 0
+              then match exec pol LMain s with Some s' => Some s' | None => settle_worker od pol s (ws s) 0 end
+              else settle_worker od pol s (ws s) 0
+  | [] => settle_worker od pol s (ws s) 0
   end.
 
-Fixpoint settle (pol : policy) (fuel : nat) (s : st P) : st P :=
+Fixpoint settle (od : bool) (pol : policy) (fuel : nat) (s : st P) : st P :=
   match fuel with
   | O => s
-  | S f => match settle1 pol s with Some s' => settle pol f s' | None => s end
+  | S f => match settle1 od pol s with Some s' => settle od pol f s' | None => s end
   end.
 
-Fixpoint accepts (pol : policy) (evs : list ev) (pos : nat) (s0 : st P) : verdict :=
-  let s := settle pol (measure s0) s0 in
+Fixpoint accepts (od : bool) (pol : policy) (evs : list ev) (pos : nat) (s0 : st P) : verdict :=
+  let s := settle od pol (measure s0) s0 in
   match evs with
   | [] => Accepted (final_b s)
   | EvMain e :: r =>
@@ -97,7 +99,7 @@ Fixpoint accepts (pol : policy) (evs : list ev) (pos : nat) (s0 : st P) : verdic
     | [] => Rejected pos RThreadFinished
     | a :: _ => if mev_matches e a
                 then match exec pol LMain s with
-                     | Some s' => accepts pol r (S pos) s'
+                     | Some s' => accepts od pol r (S pos) s'
                      | None => Rejected pos RBlocked
                      end
                 else Rejected pos RMismatch
@@ -110,7 +112,7 @@ Fixpoint accepts (pol : policy) (evs : list ev) (pos : nat) (s0 : st P) : verdic
       | [] => Rejected pos RThreadFinished
       | a :: _ => if wev_matches e a
                   then match exec pol (LWorker i) s with
-                       | Some s' => accepts pol r (S pos) s'
+                       | Some s' => accepts od pol r (S pos) s'
                        | None => Rejected pos RBlocked
                        end
                   else Rejected pos RMismatch
@@ -120,8 +122,8 @@ Fixpoint accepts (pol : policy) (evs : list ev) (pos : nat) (s0 : st P) : verdic
 
 (** the check: the script of the messages handled by the main loop passes the static discipline, and the event
     sequence is accepted from the initial state under the most permissive policy *)
-Definition check_trace (old : bool) (items : list (item P)) (evs : list ev) : bool * verdict :=
+Definition check_trace (old od : bool) (items : list (item P)) (evs : list ev) : bool * verdict :=
   let script := if old then script_old items else script_of items in
-  (script_ok false true script && pub_ok true script, accepts ReaderPref evs 0 (init script)).
+  (script_ok false true script && pub_ok true script, accepts od ReaderPref evs 0 (init script)).
 
 End Trace.
